@@ -117,6 +117,115 @@ func init() {
 		return Value{T: Fresh("since", "Int")}
 	}
 	rulePrefixes["statemachine.Run["] = ruleStatemachineRun
+	rules["exponential.(*Backoff).Retry"] = ruleRetry
+	// reflect.TypeOf(x): the dynamic type of x, i.e. its tag (nil for a nil interface)
+	rules["reflect.TypeOf"] = func(x *Exec, fr *Frame, st *State, ins ssa.Instruction, sig *types.Signature, args []Value) Value {
+		tag := Acc(args[0].T, 0)
+		return Value{T: Ite(Eq(tag, Int(0)), NilIface(), Mk(sortIface, typeTag(types.Typ[types.Uintptr]), tag))}
+	}
+	// a plugin's declared response type is fixed: Response() is a pure function of the plugin
+	rulesInvoke["plugins.Plugin.Response"] = func(x *Exec, fr *Frame, st *State, ins ssa.Instruction, sig *types.Signature, args []Value) Value {
+		x.assumed["plugins: Plugin.Response() is a pure function of the plugin (its declared response type is fixed)"] = true
+		r := UF("plugin_Response", sortIface, args[0].T)
+		x.assume(st, x.wf(st, r, sig.Results().At(0).Type()))
+		return Value{T: r}
+	}
+}
+
+// ruleRetry: (*exponential.Backoff).Retry(ctx, op) as read from github.com/Azure/retry: op is called at least once;
+// after a call that returned nil Retry returns nil; after a call whose error is permanent, or when the policy or the
+// context gives up, it returns a non-nil error; there is no call after a nil result. The op closure is verified in
+// place against the invariant declared as `invariant retry N:` in the contract of the calling function: it holds
+// before the first call, every call preserves it, and Retry returns in the state right after some call.
+func ruleRetry(x *Exec, fr *Frame, st *State, ins ssa.Instruction, sig *types.Signature, args []Value) Value {
+	x.assumed["library: exponential.Backoff.Retry calls op at least once, stops after the first nil result (returning nil), otherwise returns a non-nil error; read from github.com/Azure/retry"] = true
+	op := args[2]
+	if op.Clo == nil {
+		op.Clo = x.closureOf(op.T)
+	}
+	if op.Clo == nil {
+		unsup("Retry of an unknown function value")
+	}
+	con := x.contractForFrame(fr.top)
+	x.retryOrd[fr.fn]++
+	n := x.retryOrd[fr.fn]
+	var invs []Clause
+	if con != nil {
+		invs = con.Invs[1000+n]
+	}
+	site := x.site(fr, ins)
+	evalInv := func(s *State, c Clause) *Term {
+		env := &SpecEnv{x: x, vars: map[string]SVal{}, st: s, old: fr.top.entry, pkg: fr.top.fn.Pkg.Pkg, lets: map[string]*Expr{}, fr: fr.top, free: x.freeOf[con]}
+		for i, p := range con.Params {
+			if i < len(fr.top.params) && i < len(fr.top.fn.Params) {
+				env.vars[p] = SVal{T: fr.top.params[i].T, GT: fr.top.fn.Params[i].Type()}
+			}
+		}
+		for _, l := range con.Lets {
+			env.lets[l.Name] = l.Expr
+		}
+		return env.boolean(c.Expr)
+	}
+	for i, c := range invs {
+		x.oblige(st, "inv", fmt.Sprintf("retry%d.%d", n, i+1), "init", evalInv(st, c), "retry invariant holds before the first attempt")
+	}
+	opSig := op.Clo.Fn.Signature
+	opArgs := func(s *State) []Value {
+		var as []Value
+		for i := 0; i < opSig.Params().Len(); i++ {
+			if i == 0 {
+				as = append(as, args[1])
+			} else {
+				as = append(as, x.freshVal(s, "retryrec", opSig.Params().At(i).Type()))
+			}
+		}
+		return as
+	}
+	// write set of one attempt
+	x.dry++
+	dst := st.clone()
+	dst.writes = map[string]bool{}
+	x.callFunc(fr, dst, ins, op.Clo.Fn, opArgs(dst), op.Clo, site+".retry")
+	writes := dst.writes
+	x.dry--
+	pre := st.alloc
+	st.alloc = Fresh("alloc_retry", "Int")
+	x.assume(st, Ge(st.alloc, pre))
+	for _, k := range sortedKeys(writes) {
+		switch {
+		case strings.HasPrefix(k, "ghost:"):
+			g := strings.TrimPrefix(k, "ghost:")
+			st.ghost[g] = Fresh("G_"+g+"_retry", ghostSorts[g])
+		default:
+			st.heap[k] = freshHeap(st, k, "retry")
+		}
+	}
+	var js []*Term
+	for _, c := range invs {
+		js = append(js, evalInv(st, c))
+	}
+	for _, k := range sortedKeys(writes) {
+		if g := x.frameInv(fr, st, k); g != nil {
+			js = append(js, g)
+		}
+	}
+	x.assumePC(st, And(js...))
+	// one attempt from an arbitrary state satisfying the invariant
+	r := x.callFunc(fr, st, ins, op.Clo.Fn, opArgs(st), op.Clo, site+".retry")
+	if st.pc == False {
+		return x.zeroValue(sig.Results())
+	}
+	for i, c := range invs {
+		x.oblige(st, "inv", fmt.Sprintf("retry%d.%d", n, i+1), "step", evalInv(st, c), "every attempt preserves the retry invariant")
+	}
+	for _, k := range sortedKeys(writes) {
+		if g := x.frameInv(fr, st, k); g != nil {
+			x.oblige(st, "inv", fmt.Sprintf("retry%d.frame(%s)", n, k), "step", g, "implicit frame of the retry loop")
+		}
+	}
+	e := x.freshVal(st, "retryerr", sig.Results().At(0).Type())
+	x.assume(st, Eq(Eq(Acc(e.T, 0), Int(0)), Eq(Acc(r.T, 0), Int(0))))
+	return e
 }
 
 // ruleStatemachineRun: the documented loop of statemachine.Run (read from the library source):
